@@ -309,6 +309,21 @@ func c08Paths(r *Result, seed int64) {
 		}
 		leak("batches", ids, err)
 	}
+	// a NESTED statement issued from inside an Unscoped batched read runs on a fresh statement: it is scoped again
+	if !ch.hasCond() {
+		var batch []WSoft
+		nestedVisible := int64(-1)
+		ch.apply(base.Unscoped()).FindInBatches(&batch, 3, func(tx *gorm.DB, n int) error {
+			tx.Model(&WSoft{}).Count(&nestedVisible)
+			return errC08Stop
+		})
+		r.Case("paths", "nested-in-unscoped-batches", true)
+		if nestedVisible >= 0 && int(nestedVisible) != len(rows)/2 {
+			r.Violate(Violation{Kind: "e2e", Suite: "paths", Input: c08PathCase{seed, ch.desc(), "nested-in-unscoped-batches"},
+				Observed: nestedVisible, Expected: len(rows) / 2,
+				Note: "a plain (not Unscoped) count issued through the tx handed to the FindInBatches callback of an Unscoped read must not see soft-deleted rows"})
+		}
+	}
 	// Find into maps
 	{
 		var out []map[string]interface{}
@@ -414,7 +429,8 @@ func c08Rel(r *Result, seed int64) {
 		h := db.Session(&gorm.Session{})
 		tag := ""
 		if unscoped {
-			h = h.Unscoped()
+			// Unscoped() returns a chain in progress (clone = 0): wrap it so that `h` is a reusable handle again
+			h = h.Unscoped().Session(&gorm.Session{})
 			tag = "unscoped-"
 		}
 		// parents visible
@@ -464,11 +480,6 @@ func c08Rel(r *Result, seed int64) {
 		}
 		// Joins (LEFT) and InnerJoins on the has-one relation, with and without an ON handle
 		for _, variant := range []string{"joins", "innerjoins", "joins-on", "innerjoins-on"} {
-			if unscoped {
-				// latitude: the property does not say whether Unscoped on the outer query also lifts the scope of a
-				// JOINED relation (gorm keeps the relation's filter in the ON clause); only the scoped side is judged
-				break
-			}
 			var js []SParent
 			q := h.Order("`s_parents`.`id`")
 			switch variant {
